@@ -286,7 +286,7 @@ CORPUS = [
 
 def run(chk):
     chk.coq_obligations()
-    n = chk.n(28, 400)
+    n = chk.n(28, 1500)
     cases = CORPUS + [gen_case(chk.rng, chk.quick) for _ in range(n)]
     impl = run_impl(impl_run, cases, limit=150)
     mjobs, todo, keys, samples = [], [], [], []
